@@ -21,7 +21,7 @@ SUITE=$(cd "$SCRATCH" && PYTHONPATH="$SCRATCH" /venv/bin/python -m pytest -q -p 
 echo "## demo with the change" >>"$LOG"; D1=$(run_demo)
 RES=""
 for C in $CHECKS; do
-  for TIER in quick thorough; do
+  for TIER in ${TIERS:-quick thorough}; do
     echo "## check $C $TIER against the change" >>"$LOG"
     (cd "$HERE" && VERIF_REPO="$SCRATCH" VERIF_NO_EVIDENCE=1 timeout 3000 ./check "$C" --tier "$TIER" >"$OUT/check-$C-$TIER.log" 2>&1); RC=$?
     grep -E "^VIOLATION|^$C |^INCONCLUSIVE" "$OUT/check-$C-$TIER.log" | cut -c1-300 >>"$LOG"
